@@ -120,7 +120,7 @@ def run(rep: Report, tier: str, only=None) -> None:
 		'C++ semantics of the emitted subset as implemented in tv/sem.py + tv/fronts.py (precedence table, bool/int conversions at declarations, conditions and operands); validated on every run by compiling solver-chosen witnesses with g++ and comparing',
 		'programs = bounded enumeration of shapes; inputs = solver verdict',
 	]
-	rep.outside = ['strings, dicts, tuples, classes beyond int / bool fields with single inheritance, enums, closures, try/except, floats, lists of anything but int, list slices / methods other than append, lists as return values, mutation of list parameters', 'tree-grouping errors that leave the flat text unchanged (C02)', 'programs outside the generated shapes']
+	rep.outside = ['strings, dicts, tuples, classes beyond int / bool fields with single inheritance, enums, closures, try blocks around raising calls / several handlers / finally, floats, lists of anything but int, list slices / methods other than append, lists as return values, mutation of list parameters', 'tree-grouping errors that leave the flat text unchanged (C02)', 'programs outside the generated shapes']
 	rep.extra.update({'programs': stats['programs'], 'disagreements_checked': stats['replayed'], 'equivalent': stats['unsat'], 'differing': stats['sat'], 'rejected_by_transpiler': stats['rejected'], 'outside_encodable_subset': stats['unsupported'],
 		'solver_unknown': stats['unknown'], 'witnesses_validated_with_gpp': stats['witnesses_checked'], 'per_category': per_cat, 'wall_s_transpile_and_solve': round(time.time() - t0, 1),
 		'trusted_base': ['z3 5.1.0', 'tv/sem.py + tv/fronts.py C++ subset semantics (validated against g++ on witnesses each run)', 'CPython ast', 'g++ -std=c++20 for replays']})
